@@ -120,7 +120,8 @@ def invoke(argv, cwd, input=None):
         root.setLevel(old_level)
         res.no_color = click._compat.isatty is not _ORIG_ISATTY
         click._compat.isatty = _ORIG_ISATTY
-        Target._creation_order = 0
+        if hasattr(Target, "_creation_order"):
+            Target._creation_order = 0
         # module-level tables a fresh interpreter would have re-created
         for live, pristine in _GLOBAL_DICTS:
             if live != pristine:
